@@ -252,7 +252,8 @@ def ruleOk (r : Rule) (d : Desc) : Bool :=
   | .sigopsLegacy => decide (sumInt (txs.map (·.legacySigops)) * WITNESS_SCALE_FACTOR ≤ MAX_BLOCK_SIGOPS_COST)
   | .sigopsCost => decide (d.sigopCost ≤ MAX_BLOCK_SIGOPS_COST)
   | .finality => txs.all (fun t => t.final d.C.height d.lockCutoff)
-  | .bip34Height => !(decide (2 ≤ d.H.version) && decide (d.P.bip34H ≤ d.C.height)) || d.B.cbHeight = d.C.height
+  | .bip34Height => txs.isEmpty ||
+      !(decide (2 ≤ d.H.version) && decide (d.P.bip34H ≤ d.C.height)) || d.B.cbHeight = d.C.height
   | .witnessCommit => !d.segwit || d.B.commit ≠ 2
   | .unexpectedWitness =>
       -- witness data needs a commitment, and there is none to be had before segwit is active
